@@ -154,17 +154,10 @@ def normalize_key(
         raise IndexError(msg)
 
     normalized_key: list[int | slice] = []
-    shape_index = 0
-    internal_shape_index = 0
+    # A key for dumping only indexes the external axes (those in `shape`)
+    axis_sizes = shape if for_dump else select_by_mask(shape_mask, shape, internal_shape)
 
-    for axis, (mask, k) in enumerate(zip(shape_mask, key)):
-        if mask:
-            axis_size = shape[shape_index]
-            shape_index += 1
-        else:
-            axis_size = internal_shape[internal_shape_index]
-            internal_shape_index += 1
-
+    for axis, (axis_size, k) in enumerate(zip(axis_sizes, key)):
         if isinstance(k, slice):
             normalized_key.append(k)
         else:
